@@ -26,10 +26,10 @@ fn pick(names: &'static [&'static str]) -> BoxedStrategy<String> {
     (0..names.len()).prop_map(move |i| names[i].to_string()).boxed()
 }
 
-pub const CLASS_NAMES: &[&str] = &["a", "b", "c", "foo", "foo-bar", "x1", "_u", "-v", "p--x", "B", "组件", "a\\b", "1a", "--x", "é"];
+pub const CLASS_NAMES: &[&str] = &["a", "b", "c", "foo", "foo-bar", "x1", "_u", "-v", "p--x", "B", "组件", "a\\b", "1a", "--x", "é", "1", "a\u{1}"];
 pub const PLAIN_CLASS_NAMES: &[&str] = &["a", "b", "c", "foo", "foo-bar", "x1", "_u", "B", "组件", "é"];
 pub const TYPES: &[&str] = &["div", "view", "a", "li", "*", "x-y"];
-pub const IDS: &[&str] = &["i", "id1", "a-b", "fff"];
+pub const IDS: &[&str] = &["i", "id1", "a-b", "fff", "7"];
 pub const ATTR_NAMES: &[&str] = &["href", "data-x", "wx-host", "a"];
 pub const PSEUDOS: &[&str] = &["hover", "first-child", "root", "empty"];
 pub const PSEUDO_ELS: &[&str] = &["before", "after", "placeholder"];
@@ -313,9 +313,9 @@ pub fn import(cfg: &CssCfg) -> BoxedStrategy<Node> {
         proptest::option::weighted(0.3, (pick(PROPS), proptest::collection::vec(numeric(cfg), 1..2))),
         proptest::option::weighted(0.4, media_cond(cfg, 1)),
         proptest::option::weighted(0.2, proptest::collection::vec(complex(cfg, 1), 1..3)),
-        proptest::option::weighted(0.2, (prop_oneof![Just("layer"), Just("LAYER"), Just("Layer")], proptest::option::of(media_cond(cfg, 0)))),
+        (proptest::option::weighted(0.2, (prop_oneof![Just("layer"), Just("LAYER"), Just("Layer")], proptest::option::of(media_cond(cfg, 0)))), prop_oneof![6 => Just(0u8), 1 => Just(1u8), 1 => Just(2u8)]),
     )
-        .prop_map(|(form, layer, supports, media, supports_sel, layer_media)| {
+        .prop_map(|(form, layer, supports, media, supports_sel, (layer_media, fn_case))| {
             // `supports(selector(..))` instead of the declaration form
             let (supports, supports_sel) = if supports_sel.is_some() { (None, supports_sel) } else { (supports, None) };
             // after `layer(..)` / `supports(..)` an identifier `layer` is the first media query, not the layer keyword
@@ -329,7 +329,7 @@ pub fn import(cfg: &CssCfg) -> BoxedStrategy<Node> {
                 }
                 _ => media,
             };
-            Node::Import(Import { form, layer, supports, media, supports_sel })
+            Node::Import(Import { form, layer, supports, media, supports_sel, fn_case })
         })
         .boxed()
 }
